@@ -7,7 +7,8 @@
 //! Texts come from four sources: (1) spelling templates the printer never emits (literal forms,
 //! redundant parentheses, bare memory names, implicit lengths, tab indents, …) combined at random;
 //! (2) the library's own text of API-built programs of every instruction kind; (3) the
-//! repository's `.quil` corpus; each optionally restyled (comments, blank lines, tabs, `;`) and
+//! repository's `.quil` corpus; (4) expressions written by the harness's own printer in every
+//! expression-bearing position; each optionally restyled (comments, blank lines, tabs, `;`) and
 //! optionally hit by one token/byte mutation. A text that does not parse is outside the
 //! property's domain and only counted.
 //!
@@ -95,7 +96,7 @@ impl Property for C02Prop {
         "C02"
     }
     fn rule(&self) -> &'static str {
-        "texts from (1) 96 instruction spellings the printer never emits (radix / exponent / separator literals, i64 extremes, 1.0-style reals, redundant parentheses, nested negation, right- and left-nested - / ^, complex literals, bare memory names, upper-case pi / functions, implicit lengths, named measurements, DELAY forms, NONBLOCKING forms) and 16 definition spellings (tab-indented DEFCAL, DEFCAL with modifiers / MEASURE forms, all four DEFGATE kinds, DEFCIRCUIT, DEFFRAME, DEFWAVEFORM), 1..8 (quick) / 1..14 (thorough) per program; (2) the printed text of API-built programs of every instruction and definition kind (the C04 generator); (3) the repository's .quil corpus in groups of 6 instructions; each restyled with probability 1/2 (comments, blank lines, trailing blanks, tab indents, ';' separators) and hit by one token / byte mutation with probability 1/4. Non-trivial = the text parses to a program with an instruction other than NOP/HALT/WAIT/FENCE/RESET; distinct by text hash."
+        "texts from (1) 96 instruction spellings the printer never emits (radix / exponent / separator literals, i64 extremes, 1.0-style reals, redundant parentheses, nested negation, right- and left-nested - / ^, complex literals, bare memory names, upper-case pi / functions, implicit lengths, named measurements, DELAY forms, NONBLOCKING forms) and 16 definition spellings (tab-indented DEFCAL, DEFCAL with modifiers / MEASURE forms, all four DEFGATE kinds, DEFCIRCUIT, DEFFRAME, DEFWAVEFORM), 1..8 (quick) / 1..14 (thorough) per program; (2) the printed text of API-built programs of every instruction and definition kind (the C04 generator); (3) the repository's .quil corpus in groups of 6 instructions; (4) instructions of every expression-bearing kind whose expressions (depth <= 3/5, full literal zoo) are written by the harness's own printer with redundant parentheses, blanks, upper-case names, bare memory names and alternative number spellings; with probability 1/4 every quoted string of the text is replaced (1 in 2 each) by 1..4 pieces from {\\\", \\\\, letters, blank, #, ;, newline, e-acute, %, @, :, 0, -}; each restyled with probability 1/2 (comments, blank lines, trailing blanks, tab indents, ';' separators) and hit by one token / byte mutation with probability 1/4. Non-trivial = the text parses to a program with an instruction other than NOP/HALT/WAIT/FENCE/RESET; distinct by text hash."
     }
     fn max_words(&self) -> usize {
         4000
@@ -106,7 +107,8 @@ impl Property for C02Prop {
     fn run(&self, src: &mut Src, ctx: &Ctx, out: &mut Outcome) -> Check {
         let restyle = src.chance(1, 2);
         let mutate = src.chance(1, 4);
-        let source = src.weighted(&[4, 4, 1]);
+        let respell = src.chance(1, 4);
+        let source = src.weighted(&[4, 4, 1, 3]);
         let signed = !ctx.is_active("c04-call-signed-or-complex-immediate");
         let mut t = match source {
             0 => {
@@ -116,6 +118,10 @@ impl Property for C02Prop {
             1 => {
                 out.class("source:api-printed");
                 text::from_api(src, ctx.tier.pick(3, 4), ctx.tier.pick(6, 10), signed).unwrap_or_default()
+            }
+            3 => {
+                out.class("source:rendered-expressions");
+                text::expression_program(src, ctx.tier.pick(3, 5), ctx.tier.pick(4, 8))
             }
             _ => {
                 out.class("source:corpus");
@@ -127,6 +133,10 @@ impl Property for C02Prop {
                 }
             }
         };
+        if respell && t.contains('"') {
+            t = text::respell_strings(src, &t);
+            out.class("strings-respelled");
+        }
         if restyle {
             t = text::restyle(src, &t);
             out.class("restyled");
@@ -146,6 +156,6 @@ impl Property for C02Prop {
         oracle(text, out)
     }
     fn floors(&self) -> Vec<(&'static str, f64)> {
-        vec![("accepted", 0.6), ("source:templates", 0.3), ("source:api-printed", 0.3), ("source:corpus", 0.05), ("restyled", 0.3), ("CalibrationDefinition", 0.05), ("GateDefinition", 0.05), ("Delay", 0.03)]
+        vec![("accepted", 0.6), ("source:templates", 0.3), ("source:api-printed", 0.3), ("source:corpus", 0.05), ("source:rendered-expressions", 0.15), ("restyled", 0.3), ("strings-respelled", 0.05), ("CalibrationDefinition", 0.05), ("GateDefinition", 0.05), ("Delay", 0.03)]
     }
 }
